@@ -144,6 +144,10 @@ def load_known():
         return json.load(fh)["findings"]
 
 
+def slim(mod, obs):
+    return mod.strip_obs(obs) if hasattr(mod, "strip_obs") else obs
+
+
 def strip_cc(case):
     return {k: v for k, v in case.items() if k != "cc"} if isinstance(case, dict) else case
 
@@ -219,7 +223,7 @@ def run_check(prop, mod, tier, seed):
     for i, (o, v) in enumerate(results):
         if v is None:
             continue
-        kid = mod.classify(cases[i], o, v) if hasattr(mod, "classify") else None
+        kid = mod.classify(cases[i], o, v, model_obs[i]) if hasattr(mod, "classify") else None
         if kid is not None and any(k["id"] == kid and k["status"] == "known" for k in known):
             known_hits[kid] += 1
         else:
@@ -249,7 +253,7 @@ def run_check(prop, mod, tier, seed):
         o = mod.run_impl(small)
         path = write_replay(prop, "violation", {"property": prop, "kind": "property violated on the implementation",
                                                  "case": strip_cc(small), "original_case": strip_cc(cases[i]),
-                                                 "impl_observation": o, "verdict": mod.monitor(small, o) or v,
+                                                 "impl_observation": slim(mod, o), "verdict": mod.monitor(small, o) or v,
                                                  "model_observation": model_obs[i], "seed": seed,
                                                  "other_failing_cases": len(failing) - 1})
         lines.append("VIOLATION property=%s replay=%s" % (prop, path)); violations += len(failing)
@@ -263,13 +267,13 @@ def run_check(prop, mod, tier, seed):
                     o = mod.run_impl(cand); v = mod.monitor(cand, o)
                 except BaseException:
                     continue
-                if v is not None and not (hasattr(mod, "classify") and mod.classify(cand, o, v) is not None):
+                if v is not None and not (hasattr(mod, "classify") and mod.classify(cand, o, v, None) is not None):
                     found = (cand, o, v); break
             if found: break
         if found:
             cand, o, v = found
             path = write_replay(prop, "violation", {"property": prop, "kind": "property violated on the implementation (found near a model/implementation disagreement)",
-                                                     "case": strip_cc(cand), "impl_observation": o, "verdict": v, "seed": seed})
+                                                     "case": strip_cc(cand), "impl_observation": slim(mod, o), "verdict": v, "seed": seed})
             lines.append("VIOLATION property=%s replay=%s" % (prop, path)); violations += 1
         else:
             what = {"property": prop, "kind": "no longer shown to hold", "seed": seed}
@@ -289,7 +293,7 @@ def run_check(prop, mod, tier, seed):
                 small = shrink(cases[i], still_differs)
                 o = mod.run_impl(small); m = run_model([mod.model_case(small)])[0]
                 what["correspondence"] = {"domain": small.get("op") if isinstance(small, dict) else None, "case": strip_cc(small),
-                                          "first_difference": mod.compare(small, o, m) or d, "impl_observation": o,
+                                          "first_difference": mod.compare(small, o, m) or d, "impl_observation": slim(mod, o),
                                           "model_observation": m, "disagreeing_cases": len(disagreements),
                                           "theorems_relying_on_this_model": theorems}
             path = write_replay(prop, "unproved", what)
